@@ -24,12 +24,42 @@ EXPLANATION = (
 ASSUMPTIONS = ["CPython ast parser", "orjson natively serialises str/int/float/bool/None/list/dict/dataclass/datetime/date/time/enum and calls `default` for anything else",
                "sym.py guard extraction; teval.py evaluation of membership tests on stand-in lists"]
 
+def dump_history(chk, program, consts, sf, cf):
+    """[DUMP-GUARD history] the dump decision is taken per message: on one interpreted decoder (rules_filter.DecodePath) with an open dump file and
+    the dump filter naming one definition id, messages of one PGN number under two definition ids are fed in both orders; a line is written for the
+    named id and only for it, whatever came before.  Not interpretable -> no verdict from this clause."""
+    from .. import absint as A_
+    db = program.db
+    ordinary = [d for d in db.defs if not d.group.complex and d.pgn != consts['ISO_CLAIM_PGN'] and d.id != d.id.lower() and len(d.group.defs) == 1]
+    P, ID = ordinary[0].pgn, ordinary[0].id
+    OTHER = 'anotherDefinitionOfThatNumber'
+    class _F:      # stand-in for the open file (DecodePath recognises the class name)
+        pass
+    fn = program.fn('decoder', 'NMEA2000Decoder._call_decode_function')
+    for order in ((OTHER, ID, OTHER, ID), (ID, OTHER, ID)):
+        try:
+            attrs = F.runtime_attrs(program, sf, cf, consts, [], [], (ID,))
+            dp = F.DecodePath(program, attrs, consts, extra_self={'dump_TextIOWrapper': _F()})
+            rep = []
+            for mid in order:
+                r = dp.feed(P, mid, src=7)
+                rep.append((mid, r['status'], r['writes']))
+        except (A_.Unknown, A_.RaiseSignal, teval.EvalUnknown, KeyError, AttributeError, TypeError, AnalysisError) as u:
+            chk.unit('dump_history_not_interpretable', f"{type(u).__name__}: {u}"[:160])
+            return
+        for k, (mid, status, w) in enumerate(rep):
+            want = 1 if mid == ID else 0
+            chk.check(status == 'returned' and w == want, 'DUMP-GUARD', f"history::{'-'.join('named' if x == ID else 'other' for x in order)}::step{k + 1}", file=DEC, line=fn.lineno, func='_call_decode_function',
+                      expected=f"returned, {want} dump line(s) (the dump filter names the id {ID})", found={'status': status, 'lines': w},
+                      detail='' if (status == 'returned' and w == want) else 'the dump decision of one message depends on the messages seen before it (a verdict remembered per PGN number)')
+
 def run(chk, program, tier):
     for r, t in (('DUMP-GUARD', 'dump decision table'), ('DUMP-NORM', 'LOWER probe against the lower-cased dump id list'), ('DUMP-TEXT', 'json + newline, append mode, closed'),
                  ('JSON-TYPES', 'default hook covers non-native types'), ('JSON-BACK', 'from_json rebuilds message and fields'), ('JSON-RAW-FIRST', 'encoders prefer raw values')):
         chk.rule(r, t)
     consts = F.module_consts(program)
     sf, cf = F.facts_or_none(program)
+    dump_history(chk, program, consts, sf, cf)
     stages = {'_decode': F.stage_events(program, '_decode'), '_call_decode_function': F.stage_events(program, '_call_decode_function')}
     fn, ex = stages['_call_decode_function']
     writes = [(i, e) for i, e in enumerate(ex.events) if e[0] == 'expr' and e[2][0] == 'call' and e[2][1][0] == 'attr' and e[2][1][2] == 'write'
